@@ -161,32 +161,7 @@ Definition parse_decimal (body : str) : option (Z * Z * nat) :=
         else None
     end.
 
-Definition f64_inf (neg : bool) : f64 := B754_infinity 53 1024 neg.
-Definition f64_nan : f64 := f64_of_bits 0x7ff8000000000000.
-Definition f64_zero_s (neg : bool) : f64 := B754_zero 53 1024 neg.
-
-(* M * 10^e rounded to nearest-even.  For e < 0 let D = 10^-e, s = log2 D + 66,
-   q = floor(M*2^s / D) (>= 2^65 since M >= 1) and m = 2q + [remainder <> 0].  The exact
-   quotient x and y = m * 2^-(s+1) lie in the same interval [q, q+1) * 2^-s, both equal to
-   its left end or both strictly inside; every binary64 value and every midpoint of two
-   neighbouring ones is a multiple of 2^-s * 2^12 at least, so x and y round alike. *)
-Definition f64_of_decimal (neg : bool) (m e : Z) (nd : nat) : f64 :=
-  if (m =? 0)%Z then f64_zero_s neg
-  else
-    let sm := if neg then (- m)%Z else m in
-    if (0 <=? e)%Z then
-      if (400 <? e)%Z then f64_inf neg
-      else Binary.binary_normalize 53 1024 eq_refl eq_refl mode_NE (sm * 10 ^ e)%Z 0 false
-    else
-      if (400 + Z.of_nat nd <? - e)%Z then f64_zero_s neg
-      else
-        let d := (10 ^ (- e))%Z in
-        let s := (Z.log2 d + 66)%Z in
-        let q := (m * 2 ^ s / d)%Z in
-        let r := ((m * 2 ^ s) mod d)%Z in
-        let mm := (2 * q + (if (r =? 0)%Z then 0 else 1))%Z in
-        Binary.binary_normalize 53 1024 eq_refl eq_refl mode_NE
-          (if neg then - mm else mm)%Z (- (s + 1))%Z false.
+(* f64_inf, f64_nan, f64_zero_s, f64_of_decimal: Model/Float.v *)
 
 Definition ascii_lower (c : N) : N := if in_range 65 90 c then c + 32 else c.
 
